@@ -29,12 +29,14 @@ structure Cfg where
   marksFirst : Bool
   /-- the thread loop leaves the *outer* loop when `cache_msg` is disconnected (F-C15) -/
   leavesOnDisconnect : Bool
+  /-- the thread loop leaves when the *event* channel is disconnected (no source will ever send again) -/
+  leavesOnEventsDisconnect : Bool
   /-- `reload_untyped` runs the loader under `catch_unwind` (F-C09) -/
   catchesPanic : Bool
   deriving DecidableEq, Repr
 
-def Cfg.repaired : Cfg := ⟨true, true, true, true⟩
-def Cfg.defective : Cfg := ⟨false, false, false, false⟩
+def Cfg.repaired : Cfg := ⟨true, true, true, true, true⟩
+def Cfg.defective : Cfg := ⟨false, false, false, true, false⟩
 
 /-! ## Reverse-dependency visit -/
 
@@ -204,45 +206,56 @@ structure LoopSt where
 inductive LoopRes | blocked | continue_ (s : LoopSt) | exit
   deriving DecidableEq, Repr
 
+/-- The two source facts the loop depends on. -/
+structure LoopCfg where
+  /-- the drain loop leaves the *thread* when `cache_msg` is disconnected -/
+  leavesOnDisconnect : Bool
+  /-- the events arm leaves the thread when the event channel is disconnected -/
+  leavesOnEventsDisconnect : Bool
+  deriving DecidableEq, Repr
+
+def Cfg.loop (c : Cfg) : LoopCfg := ⟨c.leavesOnDisconnect, c.leavesOnEventsDisconnect⟩
+
 /-- One iteration of the outer loop of `hot_reloading_thread`. `pickEvents`: `Select::ready`'s choice
 when both operations are ready (an operation is ready when its channel has a message *or is
-disconnected*). -/
-def iter (leavesOnDisconnect : Bool) (pickEvents : Bool) (s : LoopSt) : LoopRes :=
+disconnected*; every choice is covered, so a biased `Select` is an instance). -/
+def iter (lc : LoopCfg) (pickEvents : Bool) (s : LoopSt) : LoopRes :=
   let msgReady := s.msgQ > 0 || !s.msgConn
   let evReady := s.evQ > 0 || !s.evConn
   if !msgReady && !evReady then .blocked else
   let ready1 := if msgReady && evReady then pickEvents else evReady
   -- inner loop: drain `cache_msg`, then `try_recv` fails with Empty or Disconnected
-  if !s.msgConn && leavesOnDisconnect then .exit else
+  if !s.msgConn && lc.leavesOnDisconnect then .exit else
   let s1 := { s with msgQ := 0 }
   if ready1 then
     if s1.evQ > 0 then .continue_ { s1 with evQ := s1.evQ - 1 }
     else if s1.evConn then .continue_ s1
-    else .exit
+    else if lc.leavesOnEventsDisconnect then .exit
+    else .continue_ s1
   else .continue_ s1
 
 /-- Run iterations with the given picks; `none` = the thread has exited, `some (s, blocked)` otherwise. -/
-def runLoop (leaves : Bool) : LoopSt → List Bool → Option (LoopSt × Bool)
+def runLoop (lc : LoopCfg) : LoopSt → List Bool → Option (LoopSt × Bool)
   | s, [] => some (s, false)
   | s, p :: ps =>
-    match iter leaves p s with
+    match iter lc p s with
     | .exit => none
     | .blocked => some (s, true)
-    | .continue_ s' => runLoop leaves s' ps
+    | .continue_ s' => runLoop lc s' ps
 
 /-- What an observer of the thread sees in the long run under fair picks (alternating), given that
 nothing is sent any more: exited, asleep for good, or spinning. -/
 inductive Verdict | exited | asleep | spinning
   deriving DecidableEq, Repr
 
-def verdictFuel (leaves : Bool) : Nat → Bool → LoopSt → Verdict
+def verdictFuel (lc : LoopCfg) : Nat → Bool → LoopSt → Verdict
   | 0, _, _ => .spinning
   | f+1, p, s =>
-    match iter leaves p s with
+    match iter lc p s with
     | .exit => .exited
     | .blocked => .asleep
-    | .continue_ s' => verdictFuel leaves f (!p) s'
+    | .continue_ s' => verdictFuel lc f (!p) s'
 
-def verdict (leaves : Bool) (s : LoopSt) : Verdict := verdictFuel leaves (2 * (s.msgQ + s.evQ) + 8) false s
+def verdict (lc : LoopCfg) (s : LoopSt) : Verdict := verdictFuel lc (2 * (s.msgQ + s.evQ) + 8) false s
 
 end AmVerif.Model.Reloader
